@@ -13,7 +13,7 @@ from ..world import h64
 ID = "C15"
 RULE = (
     "populations = all sets of n distinct points of small integer lattices (2-D 4x4: n<=3 quick / n<=5 thorough; 2-D 3x3: n<=5 / n<=6; 1-D and "
-    "3-D analogues) x all fitness assignments over {0,1,2} (every weak ordering incl. ties with the best and ties at the truncation cut) x "
+    "3-D analogues) x all fitness assignments over {0,1,2} and over {100, 100+1e-11, 100+3e-11} (every weak ordering incl. ties with the best and ties at the truncation cut; distinct values that agree to 11 digits) x "
     "(distance factor, truncation) in {(2,1), (1,0.5), (3,0.7), (1.5,0.34), (0,1), (0,0.7)} x both directions x scales {1, 1e-9 around 1.0 (tightly converged: "
     "distinct genomes whose printed form coincides)}; metamorphic re-runs (all n! input orders, translation by a lattice vector, scaling by 4 "
     "and 1/4, min/max mirroring) on the 3x3 cases; thorough adds 60-point clustered / collinear / grid populations in dimensions 1-8; each case "
@@ -158,15 +158,16 @@ def units(tier, seed):
     us = []
     q = tier == "quick"
 
-    def add(dims, ns, scales, params, meta=False, chunk=40):
+    def add(dims, ns, scales, params, meta=False, chunk=40, close=False):
         pts = lattice(dims)
         for n in ns:
             sets = list(itertools.combinations(range(len(pts)), n))
             for i in range(0, len(sets), chunk):
-                us.append({"kind": "lattice", "dims": dims, "sets": sets[i : i + chunk], "scales": scales, "params": params, "meta": meta})
+                us.append({"kind": "lattice", "dims": dims, "sets": sets[i : i + chunk], "scales": scales, "params": params, "meta": meta, "close": close})
 
     add((4, 4), (2, 3) if q else (2, 3, 4, 5), [0, 1], list(range(4)), chunk=40 if q else 12)
     add((3, 3), (2, 3, 4), [0, 1], [4, 5], chunk=20)
+    add((3, 3), (2, 3, 4), [0], [0, 1, 2], chunk=20, close=True)  # distinct fitness values that agree to 11 digits
     add((3, 3), (4, 5) if q else (4, 5, 6), [0, 1], [0, 2] if q else list(range(4)), chunk=6 if q else 2)
     add((3, 3), (2, 3, 4), [0], [0, 2], meta=True, chunk=8)
     add((6,), (2, 3, 4), [0, 1], list(range(4)), chunk=30)
@@ -191,7 +192,8 @@ def run_unit(unit):
                 else:
                     genomes = [tuple(1.0 + 1e-9 * c for c in p) for p in base]
                     tag = "scale-1e-9"
-                for fits in itertools.product((0.0, 1.0, 2.0), repeat=n):
+                fit_alphabet = (0.0, 1.0, 2.0) if not unit.get("close") else (100.0, 100.0 + 1e-11, 100.0 + 3e-11)
+                for fits in itertools.product(fit_alphabet, repeat=n):
                     for pi in unit["params"]:
                         factor, trunc = PARAMS[pi]
                         for mx in (False, True):
